@@ -104,19 +104,29 @@ impl<'a> R<'a> {
                         let save = self.i;
                         self.skip_ws();
                         if !matches!(self.peek(), Some(b'"') | Some(b'\'')) {
-                            // raw url: read to ')' honouring escapes
+                            // raw url: read to ')' honouring escapes; a '(' inside means it is an
+                            // ordinary function call (url(fn(..))), handled by the generic path
+                            let mut k = self.i;
+                            let mut raw = true;
                             loop {
-                                match self.peek() {
+                                match self.s.get(k) {
                                     None => return Err(CssError("unterminated url(".into())),
-                                    Some(b'\\') => self.i += 2,
-                                    Some(b')') => {
-                                        self.i += 1;
+                                    Some(b'\\') => k += 2,
+                                    Some(b'(') => {
+                                        raw = false;
                                         break;
                                     }
-                                    _ => self.i += 1,
+                                    Some(b')') => {
+                                        k += 1;
+                                        break;
+                                    }
+                                    _ => k += 1,
                                 }
                             }
-                            continue;
+                            if raw {
+                                self.i = k;
+                                continue;
+                            }
                         }
                         self.i = save;
                     }
